@@ -38,20 +38,17 @@ def run_impl(case, sets=None, alpha=None):
     from valjean.gavroche.stat_tests.chi2 import TestChi2
     shape = tuple(case['shape'])
 
-    lay = case.get('layouts') or []          # memory layouts [values, errors] per dataset
-
-    def arr(flat, kind):
-        vals = [unbits(b) for b in flat]
-        if not shape:
-            return np.float64(vals[0])
-        return layouts.apply(np.array(vals, dtype=float).reshape(shape), kind)
+    lay = case.get('layouts') or []          # presentation only: memory layouts [values, errors] per dataset,
+    dty = case.get('dtypes') or []           # integer dtypes, masks given to Dataset.mask()
+    msk = case.get('masks') or [] if sets is None else []
     try:
         with np.errstate(all='ignore'):
             import warnings
             with warnings.catch_warnings():
                 warnings.simplefilter('ignore')
-                dsets = [Dataset(arr(v, (lay[k] if k < len(lay) else 'CC')[0]),
-                                 arr(e, (lay[k] if k < len(lay) else 'CC')[1]))
+                dsets = [layouts.make_dataset(Dataset, shape, [unbits(b) for b in v], [unbits(b) for b in e],
+                                              lay[k] if k < len(lay) else ('C', 'C'),
+                                              dty[k] if k < len(dty) else None, msk[k] if k < len(msk) else None)
                          for k, (v, e) in enumerate(sets if sets is not None else case['datasets'])]
                 test = TestChi2(*dsets, name='chi2', alpha=case['alpha'] if alpha is None else alpha,
                                 ignore_empty=case['ignore_empty'])
@@ -60,10 +57,14 @@ def run_impl(case, sets=None, alpha=None):
                 if len(res.chi2) != ndat or len(res.test.ndf) != ndat or len(res.pvalue) != ndat:
                     return {'malformed': f'{len(res.chi2)} statistics, {len(res.test.ndf)} ndf, '
                                          f'{len(res.pvalue)} p-values for {ndat} compared datasets'}
-                return {'verdict': bool(res),
-                        'chi2': [bits(x) for x in res.chi2],
-                        'ndf': [int(x) for x in res.test.ndf],
-                        'p': [bits(x) for x in res.pvalue]}
+                def canon(r):
+                    return {'verdict': bool(r),
+                            'chi2': [bits(np.ma.filled(x, NAN)) for x in r.chi2],
+                            'ndf': [int(x) for x in r.test.ndf],
+                            'p': [bits(np.ma.filled(x, NAN)) for x in r.pvalue]}
+                obs = canon(res)
+                obs['reeval_same'] = canon(test.evaluate()) == obs and canon(res) == obs
+                return obs
     except Exception as exc:  # noqa
         return {'raise': type(exc).__name__}
 
@@ -81,21 +82,34 @@ def expected(case, d):
             used = ~((e1 == 0) & (e2 == 0))
         else:
             used = np.ones(len(v1), dtype=bool)
+        msk = case.get('masks') or []
+        masked_mode = any(m is not None for m in msk)
+        if masked_mode:                      # bins masked on either side are not summed
+            get = lambda k: np.array(msk[k], dtype=bool) if k < len(msk) and msk[k] is not None \
+                else np.zeros(len(v1), dtype=bool)
+            summed = used & ~(get(0) | get(d + 1))
+        else:
+            summed = used
         dlt = v1 - v2
         sums = []
         for quad in (np.sqrt(e1 * e1 + e2 * e2),
                      np.where(np.isnan(e1) | np.isnan(e2), NAN, np.hypot(e1, e2))):   # no spurious under/overflow
             pull = dlt / quad
-            terms = (pull * pull)[used]
+            if masked_mode:                  # numpy's masked arithmetic also drops non-finite results
+                summed = summed & np.isfinite(pull) & np.isfinite(pull * pull)
+            terms = (pull * pull)[summed]
             if len(terms) and not np.isfinite(terms).all():
                 sums.append(float(np.sum(terms)))
             else:
                 sums.append(math.fsum(terms))
-        alt = (dlt * dlt / (e1 * e1 + e2 * e2))[used]
+        alt = (dlt * dlt / (e1 * e1 + e2 * e2))[summed]
         mags = np.abs(np.concatenate([e1, e2, dlt]))
         mags = mags[(mags > 0) & np.isfinite(mags)]
         plain = bool(len(mags) == 0 or (mags.min() > 1e-150 and mags.max() < 1e150))   # no square under/overflows
-    return (sums[0], sums[1], int(used.sum()),
+    if masked_mode and not summed.any():
+        sums = [None, None]                  # nothing is summed: the statistic is undefined
+    ndfs = {int(used.sum())} | ({int((used & ~(get(0) | get(d + 1))).sum())} if masked_mode else set())
+    return (sums[0], sums[1], ndfs,
             (math.fsum(alt) if plain and len(alt) and np.isfinite(alt).all() else None))
 
 
@@ -103,9 +117,9 @@ def model_comparable(case, nd):
     '''sqrt(e1^2+e2^2) and an overflow-free quadratic sum give the same statistic'''
     for d in range(nd):
         a, b, _, _ = expected(case, d)
-        if not rel_close(a, b, 1e-13):
+        if a is None or not rel_close(a, b, 1e-13):
             return False
-    return True
+    return not case.get('masks')
 
 
 def expected_p(chi2, ndf):
@@ -134,6 +148,10 @@ def oracle(ctx, case, obs):
         ctx.oracle_failure('result not reported per compared dataset: ' + obs['malformed'] + tag, case,
                            key='malformed')
         return False
+    if not obs.get('reeval_same', True):
+        ctx.oracle_failure('evaluating the same chi-square test twice gives different results' + tag, case,
+                           key='reevaluation')
+        return False
     alpha = case['alpha']
     near = False
     all_exp = True
@@ -141,12 +159,16 @@ def oracle(ctx, case, obs):
         chi2 = unbits(obs['chi2'][d])
         p = unbits(obs['p'][d])
         chi2_exp, chi2_hyp, ndf_exp, alt = expected(case, d)
+        if obs['ndf'][d] not in ndf_exp:
+            ctx.oracle_failure(f'dataset {d}: ndf = {obs["ndf"][d]}, number of used bins = {sorted(ndf_exp)}'
+                               + tag, case, key='ndf')
+            return False
+        ndf_exp = obs['ndf'][d]
+        if chi2_exp is None:
+            near = True
+            continue                      # masked datasets with no bin left to sum: nothing to decide
         if not rel_close(chi2, chi2_exp, 1e-11) and rel_close(chi2, chi2_hyp, 1e-11):
             chi2_exp = chi2_hyp           # a quadratic sum without spurious under/overflow is as good
-        if obs['ndf'][d] != ndf_exp:
-            ctx.oracle_failure(f'dataset {d}: ndf = {obs["ndf"][d]}, number of used bins = {ndf_exp}' + tag,
-                               case, key='ndf')
-            return False
         if not rel_close(chi2, chi2_exp, 1e-11):
             ctx.oracle_failure(f'dataset {d}: chi2 = {chi2!r}, sum of the squared pulls over the used bins = '
                                f'{chi2_exp!r}' + tag, case, key='chi2')
@@ -272,6 +294,53 @@ def gen_case(rng, quick):
             'datasets': [[[bits(x) for x in v], [bits(x) for x in e]] for v, e in sets]}
 
 
+def gen_int_case(rng, quick):
+    '''integer-valued data (counts) with integer dtypes: all values int, or mixed with float datasets;
+    errors int (incl. unsigned) or float; 0-d cases as numpy or Python ints'''
+    nd = rng.choice([0, 1, 1, 2, 3])
+    shape = [rng.choice([1, 2, 3, 4, 6]) for _ in range(nd)]
+    size = int(np.prod(shape)) if shape else 1
+    ndat = rng.choice([1, 1, 2, 3])
+    mult = rng.choice([1, 1, 10, 1000])
+    ie = rng.random() < 0.5
+    ref_v = [float(rng.randint(0, 100) * mult) for _ in range(size)]
+    all_int = rng.random() < 0.65
+    sets, dts = [], []
+    for k in range(ndat + 1):
+        int_err = rng.random() < 0.5
+        es = [float(0 if rng.random() < (0.25 if ie else 0.0) else rng.randint(1, 9) * mult) if int_err
+              else round(rng.uniform(0.5, 9.0), 2) * mult for _ in range(size)]
+        vs = ref_v if k == 0 else [v if rng.random() < 0.15 else v + float(rng.randint(-20, 20) * mult)
+                                   for v in ref_v]
+        int_val = all_int or rng.random() < 0.5
+        if not int_val:
+            vs = [v + round(rng.uniform(-0.5, 0.5), 2) for v in vs]
+        scal = (not shape) and rng.random() < 0.5
+        dts.append(['pyint' if scal else rng.choice(layouts.INT_VALUE_DTYPES) if int_val else 'float64',
+                    ('pyint' if scal else rng.choice(layouts.INT_ERROR_DTYPES)) if int_err else 'float64'])
+        sets.append([vs, es])
+    return {'shape': shape, 'alpha': rng.choice(ALPHAS), 'ignore_empty': ie, 'dtypes': dts,
+            'layouts': [[layouts.pick(rng, shape), layouts.pick(rng, shape)] for _ in sets],
+            'datasets': [[[bits(x) for x in v], [bits(x) for x in e]] for v, e in sets]}
+
+
+def add_masks(rng, case):
+    '''reference and / or compared datasets through Dataset.mask(): no, some or all bins'''
+    size = len(case['datasets'][0][0])
+
+    def pattern():
+        q = rng.random()
+        return [0] * size if q < 0.2 else [1] * size if q < 0.3 else [int(rng.random() < 0.3) for _ in range(size)]
+    who = rng.choice(['ref', 'cmp', 'both'])
+    return dict(case, masks=[pattern() if (who == 'both' or (k == 0) == (who == 'ref')) else None
+                             for k in range(len(case['datasets']))])
+
+
+def plain_numbers(case):
+    flat = [unbits(b) for v, e in case['datasets'] for b in v + e]
+    return bool(case['shape']) and all(math.isfinite(x) and (x == 0 or 1e-100 < abs(x) < 1e100) for x in flat)
+
+
 def special_pair_cases():
     '''option off: three ordinary bins + one bin with every combination of (inf, nan, 0, finite)
     errors and representative value pairs across the two sides'''
@@ -384,7 +453,7 @@ def run(ctx):
     ctx.rule = ('corpus (docstring-like examples, all bins empty, one-sided zero errors, NaN/inf, scalars) + random '
                 'comparisons: scalar to 3-d, 1..3 compared datasets, both option values, zero-error patterns at rates '
                 '0..100% (correlated between the two datasets so that empty bins occur), NaN/inf only with the option '
-                'off, magnitudes 1e-321..1e304 (tiny, subnormal and huge errors/differences whose squares under/overflow, 22% of the cases), every combination of inf/NaN/0/finite errors across the two sides, arrays handed over in 7 memory layouts + boundary cases alpha == p-value exactly (and its float neighbours); each '
+                'off, magnitudes 1e-321..1e304 (tiny, subnormal and huge errors/differences whose squares under/overflow, 22% of the cases), every combination of inf/NaN/0/finite errors across the two sides, arrays handed over in 7 memory layouts, 14% integer-valued data with int64/int32/uint/Python-int dtypes (all-int or mixed with float datasets), 12% datasets masked through Dataset.mask(), every test evaluated twice + boundary cases alpha == p-value exactly (and its float neighbours); each '
                 'case re-run with permuted bins; non-trivial = more than one bin, ndf > 0, and bins left out when the '
                 'option is on')
     cases = corpus()
@@ -396,7 +465,21 @@ def run(ctx):
     ctx.count('magnitude_corpus_cases', len(extra))
     cases += extra
     nrand = 650 if quick else 16000
-    rand = [gen_case(ctx.rng, quick) for _ in range(nrand)]
+    rand = []
+    for _ in range(nrand):
+        q = ctx.rng.random()
+        case = gen_int_case(ctx.rng, quick) if q < 0.14 else gen_case(ctx.rng, quick)
+        if 0.14 <= q < 0.28 and plain_numbers(case):
+            case = add_masks(ctx.rng, case)
+        rand.append(case)
+    counts = mk([2, 3], 0.05, False, ([52, 53, 52, 54, 55, 90], [2, 3, 1, 2, 3, 1]),
+                ([51, 59, 58, 53, 45, 10], [1, 1, 2, 4, 1, 1]))
+    cases += [dict(counts, dtypes=[['int64', 'int64'], ['int64', 'int64']]),
+              dict(counts, dtypes=[['int32', 'uint32'], ['int64', 'float64']]),
+              dict(counts, dtypes=[['int64', 'int64'], ['float64', 'float64']]),
+              dict(mk([], 0.05, False, ([7], [2]), ([12], [1])), dtypes=[['pyint', 'pyint'], ['pyint', 'pyint']]),
+              dict(counts, masks=[[0, 1, 0, 0, 0, 1], None]), dict(counts, masks=[None, [1] * 6]),
+              dict(counts, masks=[[0] * 6, [0, 0, 1, 0, 0, 0]], ignore_empty=True)]
     bnd = boundary_cases(ctx.rng, cases + rand[:60 if quick else 1500])
     ctx.count('boundary_alpha_eq_p', len(bnd))
     cases = cases + bnd + rand
@@ -404,8 +487,12 @@ def run(ctx):
     t_start = time.time()
     for case in cases:
         obs = run_impl(case)
-        if oracle(ctx, case, obs):
+        if oracle(ctx, case, obs) and not case.get('masks'):
             permuted(ctx, case, obs)
+        if case.get('masks'):
+            ctx.count('masked_cases')
+        if case.get('dtypes'):
+            ctx.count('integer_dtype_cases')
         nontrivial = classify(ctx, case, obs)
         ctx.case_seen(case, nontrivial, sample_every=499)
         if 'raise' in obs:
